@@ -583,6 +583,11 @@ def hrg_ops(fgg=False):
     ops.append(("new_rule('e',g_ok)", lambda c, h: h.new_rule('e', u.g_ok()), lambda c, m: mod_new_rule(c, m, 'e', u.g_ok)))
     ops.append(("HRGRule(eA,g_ok) (terminal lhs)", lambda c, h: h.add_rule(fggs.HRGRule(u.eA, u.g_ok())), lambda c, m: 'raise'))
     ops.append(("HRGRule(S,g_ok) (type mismatch)", lambda c, h: h.add_rule(fggs.HRGRule(u.S, u.g_ok())), lambda c, m: 'raise'))
+    # same arity, different node labels: lhs X:(B) over externals (A); lhs of type (B,A) over externals (A,B)
+    ops.append(("HRGRule(XB,g_ok) (type mismatch, equal arity)", lambda c, h: h.add_rule(fggs.HRGRule(u.XB, u.g_ok())), lambda c, m: 'raise'))
+    ops.append(("HRGRule(Z:(B,A), ext (A,B)) (type mismatch, permuted)",
+                lambda c, h: h.add_rule(fggs.HRGRule(fggs.EdgeLabel('Z', [u.N2.label, u.N1.label], is_nonterminal=True), u.G([u.N1, u.N2], [fggs.Edge(u.uAB, [u.N1, u.N2], 'r9')], [u.N1, u.N2]))),
+                lambda c, m: 'raise'))
     for nm in ('X', 'Y', 'e', 'S'):
         ops.append(("start=%r" % nm, lambda c, h, nm=nm: setattr(h, 'start', nm), lambda c, m, nm=nm: m.set_start_name(nm)))
     for nm in ('XB', 'X', 'eA'):
